@@ -98,6 +98,9 @@ pub fn lookup_event(p: LonLat, res: i32, kind: &str) -> Value {
             let pr = if p.longitude().abs() > 360.0 { LonLat::new(p.longitude() % 360.0, p.latitude()) } else { p };
             let c = classify(id, &cell, pr, &o);
             class = c.0; pm = c.1; rm = c.2; allow = o.allowance;
+            // beyond 2^31 degrees a longitude is only known to ~5e-7 degrees (spacing of f64): the band along cell edges
+            // is widened accordingly for these inputs (1e-7 rad), never for ordinary ones
+            if kind == "lon_turns" && class == "out" && pm > -1e-7 && rm > -(allow + 1e-7) { class = "band"; }
         } else { class = "out"; }
     }
     json!({"op": "lookup", "kind": kind, "p": fmt_ll(p), "res": res, "ok": ok, "id": quads(id), "class": class,
